@@ -342,6 +342,7 @@ def build_text_cases(ctx):
         add(True, "".join(b[8:]))
     for t in ("", "\n", " 20200101", "20200101 ", "2020-01-01", "20200101T120000", "20200101120000Z", "20200101\n", "20200101\n\n",
               "20200101120000.000[5]\n", "20200101120000.000[5:a\nb]", "20200101120000.000[5\n30]", "120000\n", "+120000", "-20200101",
+              "20200101120000.000[-0.30]", "20200101120000[5.75]", "20200101120000[5.٣٠]",
               "20200101120000.000[5.٣٠]", "20200101120000.000[5-٣٠]", "20200101120000.000[5-3٠]",
               "20200101120000.000[5-٣٠٠]", "20200101120000[5x30]", "20200101120000[5]]", "20200101120000[5:x]y]",
               "20200101120000[530]", "20200101120000[5:30]", "20200101120000[5.30.30]", "20200101120000.000[]", "20200101120000.000[:EST]",
@@ -676,6 +677,23 @@ def run(ctx):
             ctx.disagree("spec.instant-vs-reference", {"line": ln}, [valid, want], rep.raw)
 
 
+def _value_from_canon(text):
+    """(dt y m d H M S us tz) / (tm H M S us tz) protocol text -> datetime / time with a FixedTz"""
+    from proto import parse, dstr
+    n = parse(text)[0]
+
+    def tz(t):
+        if t == "none":
+            return None
+        _, (_tag, off, name) = t
+        return FixedTz(int(off), None if name == "none" else dstr(name[1]))
+    if n[0] == "dt":
+        return datetime.datetime(*[int(x) for x in n[1:8]], tzinfo=tz(n[8]))
+    if n[0] == "tm":
+        return datetime.time(*[int(x) for x in n[1:5]], tzinfo=tz(n[5]))
+    return None
+
+
 def replay(ctx, data):
     from ofxtools.Types import DateTime, Time
     case = data.get("case") or data.get("first_disagreement", {}).get("case") or data.get("witness")
@@ -685,6 +703,15 @@ def replay(ctx, data):
         r = run_impl(c.convert, case["text"])
         ref = ref_classify(ty == "tm", case["text"])
         print("replay", case["op"], repr(case["text"]), "->", r, "| reference:", ref.kind, ref.why, ref.instant,
-              "| value denotes", value_instant_us(r[1]) if r[0] == "ok" and r[1] is not None else None, "us")
-    else:
-        print("replay", case, "(values are replayed from their repr by hand: ", case.get("value"), ")")
+              "ms | value denotes", value_instant_us(r[1]) if r[0] == "ok" and r[1] is not None else None, "us")
+        return
+    v = _value_from_canon(case["canon"]) if str(case.get("canon", "")).startswith(("(dt", "(tm")) else None
+    if v is None:
+        print("replay", case, "(not a datetime/time value; see its repr)")
+        return
+    r = run_impl(c.convert if dirn == "conv" else c.unconvert, v)
+    print("replay", case["op"], repr(v), "->", r, "| value denotes", value_instant_us(v), "us")
+    if dirn == "unconv" and r[0] == "ok" and isinstance(r[1], str):
+        rb = run_impl((Time if ty == "tm" else DateTime)().convert, r[1])
+        print("   read back:", rb, "| denotes", value_instant_us(rb[1]) if rb[0] == "ok" else None, "us;",
+              "reference for the text:", ref_classify(ty == "tm", r[1]).instant, "ms")
